@@ -211,15 +211,21 @@ TcpReply(c, i, kind, rc, v) ==
 End == Quiet /\ last' = Obs0("end") /\ UNCHANGED <<cfg, now, hs, jobs, att, timers, rr, conns, up, pend, tq>>
 
 MCNames == 1..2
-Next == \/ \E n \in MCNames : Lookup(n)
-        \/ \E a \in DOMAIN att, i \in Ids, kind \in {"ok", "err", "trunc", "garbage"} :
-              (att[a].open \/ a = 1) /\ (kind = "garbage" => i = att[a].id) /\ Reply(a, i, kind, IF kind = "err" THEN 3 ELSE 0, 7)
-        \/ \E d \in {1} \cup {timers[x].at - now : x \in DOMAIN timers} : Advance(d)     \* one tick, or up to some deadline
-        \/ Fire
-        \/ \E c \in DOMAIN conns : ConnUp(c)
-        \/ \E c \in DOMAIN conns : ConnFail(c)
-        \/ \E c \in DOMAIN conns : ConnLost(c)
-        \/ \E c \in DOMAIN conns, i \in Ids, kind \in {"ok", "err", "trunc"} : TcpReply(c, i, kind, IF kind = "err" THEN 2 ELSE 0, 8)
+\* (no-op variants pruned: one wrong-id, one garbage, one closed-port datagram per attempt; one unknown-id TCP message)
+ReplyAny == \E a \in DOMAIN att, i \in Ids, kind \in {"ok", "err", "trunc", "garbage"} :
+              /\ (i # att[a].id \/ ~att[a].open) => kind = "ok"
+              /\ kind = "garbage" => i = att[a].id
+              /\ ~att[a].open => (a = 1 /\ i = att[a].id)
+              /\ Reply(a, i, kind, IF kind = "err" THEN 3 ELSE 0, 7)
+TcpReplyAny == \E c \in DOMAIN conns, i \in Ids, kind \in {"ok", "err", "trunc"} :
+              /\ (i \notin LiveIds(c, tq)) => kind = "ok"
+              /\ TcpReply(c, i, kind, IF kind = "err" THEN 2 ELSE 0, 8)
+LookupAny == \E n \in MCNames : Lookup(n)
+AdvanceAny == \E d \in {1} \cup {timers[x].at - now : x \in DOMAIN timers} : Advance(d)     \* one tick, or up to some deadline
+ConnUpAny == \E c \in DOMAIN conns : ConnUp(c)
+ConnFailAny == \E c \in DOMAIN conns : ConnFail(c)
+ConnLostAny == \E c \in DOMAIN conns : ConnLost(c)
+Next == LookupAny \/ ReplyAny \/ AdvanceAny \/ Fire \/ ConnUpAny \/ ConnFailAny \/ ConnLostAny \/ TcpReplyAny
 -----------------------------------------------------------------------------
 (* What a user relies on *)
 AttOf(j) == {a \in DOMAIN att : att[a].job = j}
